@@ -892,17 +892,26 @@ def gen_registrations(rng, n):
                 continue
             seen.append(c)
             filters.append([rng.choice(["apply_to", "apply_to", "skip_for"]), c])
-        form = rng.choice(["function", "named", "named_inner", "named_split"])
-        regs.append(
-            {
-                "id": i,
-                "scope": rng.choice(["global", "schema", "schema_hook", "test"]),
-                "form": form,
-                "hook": f"{rng.choice(ORACLE_KINDS)}_{rng.choice(ORACLE_TARGETS)}",
-                "filters": filters,
-            }
-        )
+        form = rng.choice(["function", "named", "named", "named_inner", "named_inner", "named_split", "apply"])
+        scope = rng.choice(["global", "schema", "schema_hook", "test"])
+        hook = f"{rng.choice(ORACLE_KINDS)}_{rng.choice(ORACLE_TARGETS)}"
+        if form == "apply":
+            # schema.hooks.apply(function, name=hook)(test): test scope, no filters
+            scope, filters = "test", []
+        # the Python name of the function: the function form needs the hook name; in the named forms (and apply) it is free:
+        # mostly a name that is no hook name at all, sometimes the name of ANOTHER hook, sometimes the hook name itself
+        if form == "function":
+            fn_name = hook
+        else:
+            k = rng.random()
+            fn_name = f"custom_hook_{i}" if k < 0.6 else (f"{rng.choice(ORACLE_KINDS)}_{rng.choice(ORACLE_TARGETS)}" if k < 0.8 else hook)
+        regs.append({"id": i, "scope": scope, "form": form, "hook": hook, "fn_name": fn_name, "filters": filters})
     return regs
+
+
+def gen_unregister(rng, regs):
+    """A subset of the registrations to unregister afterwards (about a third; more often those whose function name is not the hook name)."""
+    return tuple(r["id"] for r in regs if rng.random() < (0.4 if r.get("fn_name", r["hook"]) != r["hook"] else 0.2))
 
 
 def make_oracle_fn(kind, fired_labels):
@@ -950,7 +959,8 @@ def oracle_run(regs, unregister=(), examples=2, seed=0):
             kind = next(k for k in ORACLE_KINDS if r["hook"].startswith(k + "_"))
 
             fn = make_oracle_fn(kind, fired[rid])
-            fn.__name__ = r["hook"]
+            fn.__name__ = r.get("fn_name", r["hook"])
+            fn.__qualname__ = fn.__name__
             funcs[rid] = fn
             target = closures[r["scope"]]
 
@@ -961,6 +971,8 @@ def oracle_run(regs, unregister=(), examples=2, seed=0):
 
             if r["form"] == "function":
                 chain(target, r["filters"])(fn)
+            elif r["form"] == "apply":
+                schema.hooks.apply(fn, name=r["hook"])(env.test)
             elif r["form"] == "named":
                 chain(target, r["filters"])(r["hook"])(fn)
             elif r["form"] == "named_inner":
@@ -1238,11 +1250,15 @@ def run(chk: core.Check):
     chk.stages["correspondence_auth"] = {"histories": len(acases), "agree": a_agree}
 
     # ---- oracle: real data generation
-    n_or = (40 if quick else 500) * (10 if chk.broken else 1)
+    n_or = (60 if quick else 600) * (10 if chk.broken else 1)
     wrong = inside = 0
     for i in range(n_or):
         regs = gen_registrations(rng, rng.choice([1, 2, 3, 4, 6]))
-        unreg = tuple(r["id"] for r in regs if rng.random() < 0.15)
+        unreg = gen_unregister(rng, regs)
+        chk.count("oracle:unregistered_with_own_function_name", sum(1 for r in regs if r["id"] in unreg and r["fn_name"] != r["hook"]))
+        chk.count("oracle:unregistered_by_hook_name", sum(1 for r in regs if r["id"] in unreg and r["fn_name"] == r["hook"]))
+        for r in regs:
+            chk.count(f"oracle:form:{r['form']}:{r['scope']}")
         try:
             bad = oracle_check(regs, unreg, seed=rng.randrange(1 << 30))
         except Exception as exc:  # noqa: BLE001
@@ -1255,8 +1271,10 @@ def run(chk: core.Check):
                 inside += 1
             else:
                 wrong += 1
+            what = "UNREGISTERED hook" if r["id"] in unreg else "hook"
             chk.fail(
-                f"hook {r['hook']} registered on {r['scope']} ({r['form']} form) fired for {act}, its own filters select {exp}",
+                f"{what} {r['hook']} (function {r.get('fn_name')}) registered on {r['scope']} ({r['form']} form) fired for {act}, "
+                f"{'nothing may fire after unregister' if r['id'] in unreg else 'its own filters select ' + str(exp)}",
                 {"registrations": regs, "unregister": list(unreg), "registration": r["id"]},
                 region=region,
             )
